@@ -615,12 +615,11 @@ func runC05(c *Ctx) {
 	}
 	c.Max("depth_completed", depth)
 	c.Meta(map[string]interface{}{
-		"rule": "every history up to the depth over the crash alphabet (inserts sharing index values, updates, deletes, DeleteAll, batch, search-delete; async: tick, FlushAllAndCommit, reopen) is executed with the mutation log on; for every mutation of its last call (earlier calls are the last call of a shorter history) the tree holding exactly the log prefix is materialised, and for every write additionally the trees with the write cut at 1, 1/2 and len-1 bytes; plus the tree after acknowledgement. Recovery protocol on each image: Open, first load, classify {clean, detected, unreadable}, index/file agreement through every indexed field when clean, Repair, Control, agreement, and per-object 'last acknowledged or new' (sync) / 'a value it was accepted with' (async) against files decoded without sod code. Non-trivial = images strictly inside a call.",
+		"rule":    "every history up to the depth over the crash alphabet (inserts sharing index values, updates, deletes, DeleteAll, batch, search-delete; async: tick, FlushAllAndCommit, reopen) is executed with the mutation log on; for every mutation of its last call (earlier calls are the last call of a shorter history) the tree holding exactly the log prefix is materialised, and for every write additionally the trees with the write cut at 1, 1/2 and len-1 bytes; plus the tree after acknowledgement. Recovery protocol on each image: Open, first load, classify {clean, detected, unreadable}, index/file agreement through every indexed field when clean, Repair, Control, agreement, and per-object 'last acknowledged or new' (sync) / 'a value it was accepted with' (async) against files decoded without sod code. Non-trivial = images strictly inside a call.",
 		"configs": cfgs, "depth": depth,
 		"assumptions": []string{"process-crash model: completed system calls persist in order; torn single writes; no reordering, no directory-entry loss"},
 	})
 }
-
 
 // ---- C06, storage faults: every file operation of the last call of every short
 // history fails once ----------------------------------------------------------------
@@ -829,7 +828,7 @@ func runC06Faults(c *Ctx) {
 		}
 	}
 	c.Meta(map[string]interface{}{
-		"fault_rule": "storage faults: every history up to the fault depth over the fault alphabet is re-executed once per file-system operation (stat, open, read, write, mkdir, remove, rename, readdir) of its last call, with that operation failing (EIO without effect; for writes also a half-persisted write then ENOSPC). Oracle: nil return => reference post-state holds (also after reopen); error return => no trace, or Control / first load reports corruption and Repair restores agreement; anything else is a silent divergence.",
+		"fault_rule":    "storage faults: every history up to the fault depth over the fault alphabet is re-executed once per file-system operation (stat, open, read, write, mkdir, remove, rename, readdir) of its last call, with that operation failing (EIO without effect; for writes also a half-persisted write then ENOSPC). Oracle: nil return => reference post-state holds (also after reopen); error return => no trace, or Control / first load reports corruption and Repair restores agreement; anything else is a silent divergence.",
 		"fault_configs": cfgs, "fault_depth": depth,
 	})
 }
